@@ -161,7 +161,10 @@ def pick_table_parameters(tables):
     for m, nme in (("cylinder", "radius"), ("cylinder", "length"), ("cylinder", "theta"), ("cylinder", "phi"),
                    ("cylinder", "sld"), ("sphere", "radius"), ("parallelepiped", "psi"),
                    ("raspberry", "penetration"), ("elliptical_cylinder", "axis_ratio"),
-                   ("core_multi_shell", "n"), ("hardsphere", "volfraction")):
+                   ("core_multi_shell", "n"), ("hardsphere", "volfraction"),
+                   # numbered members of vector parameters (their limits are those of the vector's table row)
+                   ("core_multi_shell", "thickness1"), ("core_multi_shell", "thickness3"), ("onion", "thickness2"),
+                   ("spherical_sld", "thickness1"), ("spherical_sld", "interface2")):
         for p in tables:
             if p["model"] == m and p["name"] == nme and p not in pars:
                 pars.append(p)
@@ -169,7 +172,7 @@ def pick_table_parameters(tables):
 
 
 MESH_MODELS = [("cylinder", "1d"), ("cylinder", "2d"), ("sphere", "1d"), ("core_shell_parallelepiped", "2d"),
-               ("ellipsoid", "2d"), ("raspberry", "1d")]
+               ("ellipsoid", "2d"), ("raspberry", "1d"), ("core_multi_shell", "1d"), ("onion", "1d")]
 
 
 def make_calls(chk, lattice, tables, rng):
